@@ -80,6 +80,7 @@ type record struct {
 	Cnt   map[string]int `json:"cnt,omitempty"`
 	Desc  string         `json:"desc,omitempty"`
 	Ms    int64          `json:"ms,omitempty"`
+	K     int            `json:"k,omitempty"`
 }
 
 // Ctx is handed to Run for one case.
@@ -91,6 +92,9 @@ type Ctx struct {
 	Rng     *rand.Rand
 	Scratch string // per-child scratch directory (removed by the driver)
 	Replay  bool
+	// SubStart: when a case consists of many sub-inputs and the child died at sub-input k, the
+	// driver restarts the same case with SubStart = k+1 so the rest is still explored.
+	SubStart int
 
 	mu    sync.Mutex
 	rec   record
@@ -203,12 +207,22 @@ func (c *Ctx) Describe(format string, a ...interface{}) {
 	}
 }
 
+// Sub records that sub-input k of this case is about to be exercised (crash resumption point).
+func (c *Ctx) Sub(k int) {
+	c.mu.Lock()
+	defer c.mu.Unlock()
+	if c.out != nil {
+		b, _ := json.Marshal(record{T: "sub", I: c.Index, K: k})
+		c.out.Write(append(b, '\n'))
+	}
+}
+
 func (c *Ctx) Logf(format string, a ...interface{}) {
 	fmt.Fprintf(os.Stderr, "[case %d] "+format+"\n", append([]interface{}{c.Index}, a...)...)
 }
 
 // RunChild executes cases lo, lo+stride, … < n of prop, writing the JSONL protocol to outPath.
-func RunChild(p *Prop, tier string, seed int64, first, stride, n int, only int, outPath, scratch string) int {
+func RunChild(p *Prop, tier string, seed int64, first, stride, n int, only int, outPath, scratch string, sub int) int {
 	out, err := os.OpenFile(outPath, os.O_CREATE|os.O_WRONLY|os.O_APPEND, 0644)
 	if err != nil {
 		fmt.Fprintln(os.Stderr, "child: cannot open out:", err)
@@ -225,6 +239,9 @@ func RunChild(p *Prop, tier string, seed int64, first, stride, n int, only int, 
 			continue
 		}
 		c := &Ctx{Prop: p, Tier: tier, Seed: seed, Index: i, Scratch: scratch, out: out, Replay: only >= 0}
+		if i == first {
+			c.SubStart = sub
+		}
 		c.Rng = rand.New(rand.NewSource(caseSeed(p.ID, tier, seed, i)))
 		c.rec = record{T: "end", I: i}
 		b, _ := json.Marshal(record{T: "start", I: i})
